@@ -9,6 +9,7 @@ import (
 	"context"
 	"encoding/json"
 	"os"
+	"sync"
 	"testing"
 	"time"
 
@@ -27,16 +28,36 @@ type verifOrderCase struct {
 }
 
 type verifOrderObs struct {
-	ID    int      `json:"id"`
-	Order []string `json:"order"`
+	ID     int      `json:"id"`
+	Order  []string `json:"order"`  // names by START of their hook / Close
+	Events []string `json:"events"` // "+name" when a hook / Close starts, "-name" when it has returned
+}
+
+type verifRec struct {
+	mu     sync.Mutex
+	order  []string
+	events []string
+}
+
+// every hook / Close takes a moment, so that an implementation that runs two of them at the
+// same time shows overlapping start/return events
+func (r *verifRec) run(name string) {
+	r.mu.Lock()
+	r.order = append(r.order, name)
+	r.events = append(r.events, "+"+name)
+	r.mu.Unlock()
+	time.Sleep(2 * time.Millisecond)
+	r.mu.Lock()
+	r.events = append(r.events, "-"+name)
+	r.mu.Unlock()
 }
 
 type verifComp struct {
 	name string
-	rec  *[]string
+	rec  *verifRec
 }
 
-func (c *verifComp) Close() error { *c.rec = append(*c.rec, c.name); return nil }
+func (c *verifComp) Close() error { c.rec.run(c.name); return nil }
 
 func TestVerifShutdownOrder(t *testing.T) {
 	raw, err := os.ReadFile(os.Getenv("VERIF_CASES"))
@@ -50,19 +71,19 @@ func TestVerifShutdownOrder(t *testing.T) {
 	out := make([]verifOrderObs, 0, len(cases))
 	for _, c := range cases {
 		coord := New(30*time.Second, zerolog.Nop())
-		order := []string{}
+		rec := &verifRec{}
 		for _, r := range c.Regs {
 			name := r.Name
 			if r.Kind == "RHook" {
-				coord.RegisterHook(name, func(ctx context.Context) error { order = append(order, name); return nil }, r.Prio)
+				coord.RegisterHook(name, func(ctx context.Context) error { rec.run(name); return nil }, r.Prio)
 			} else {
-				coord.Register(name, &verifComp{name: name, rec: &order}, r.Prio)
+				coord.Register(name, &verifComp{name: name, rec: rec}, r.Prio)
 			}
 		}
 		if err := coord.Shutdown(); err != nil {
 			t.Fatalf("case %d: Shutdown: %v", c.ID, err)
 		}
-		out = append(out, verifOrderObs{ID: c.ID, Order: order})
+		out = append(out, verifOrderObs{ID: c.ID, Order: rec.order, Events: rec.events})
 	}
 	buf, _ := json.Marshal(out)
 	if err := os.WriteFile(os.Getenv("VERIF_OUT"), buf, 0o644); err != nil {
